@@ -72,9 +72,13 @@ def items(tier):
         for mi, name in enumerate(names):
             for ai, axis in enumerate(AXES):
                 for ti, typ in enumerate(TYPES):
-                    variant = VARIANTS[(mi + ai + ti) % len(VARIANTS)]
-                    out.append({"shape": SHAPES[(mi * 7 + ai * 3 + ti) % len(SHAPES)], "metric": name, "axis": axis, "type": typ,
-                                "variant": variant, "k": mi + ai + ti, "kind": "netcdf" if (mi + ai) % 4 == 0 else "text"})
+                    # text/csv are cheap: every dataset shape; figures: three rotating shapes
+                    nshape = len(SHAPES) if typ in ("text", "csv") else 3
+                    for si in range(nshape):
+                        variant = VARIANTS[(mi + ai + ti + si) % len(VARIANTS)]
+                        out.append({"shape": SHAPES[(mi * 7 + ai * 3 + ti + si * 4) % len(SHAPES)] if nshape < len(SHAPES) else SHAPES[si],
+                                    "metric": name, "axis": axis, "type": typ, "variant": variant, "k": mi + ai + ti + si,
+                                    "kind": "netcdf" if (mi + ai + si) % 4 == 0 else "text"})
     else:
         for mi, name in enumerate(names):
             for ti, typ in enumerate(TYPES):
@@ -201,6 +205,6 @@ def check_generated(case, ctx):
 def campaigns(tier):
     return [
         Enum("sweep", items, check_item, "stratified sample (quick) / full product (thorough) of metric x axis x type on fixed dataset shapes",
-             budget_quick=75, budget_thorough=2400),
+             budget_quick=75, budget_thorough=3600),
         Hyp("generated", gen_strategy, check_generated, quick=320, thorough=20000, budget_quick=40, budget_thorough=1500),
     ]
